@@ -37,6 +37,7 @@ def check(run: Run, prog: Program, model: Model, tier: str) -> None:
         "must exist whose predicate covers the validator's failing predicate for that prop.")
     run.explanation += " VALCHK-KIND: every kind the declaration admits for the fixed value (isinstance guards of the refinement, minus excluded kinds) is handed to the validator as declared and validated value; no path may build a TypeValidationError. Format specs ({x:d}) are partial operations under the operand's kind."
     run.explanation += ' VALCHK-SELF: with the declared value handed to the validator as value and as props.value, every error other than a reflexive value comparison has a deciding predicate that every accepting path of __call__ rules out. OPERATORS: declaration.union on a schema and on a definitely-non-schema operand.'
+    run.explanation += ' VALCHK-ELEMENTS: ListSchema([]).len / min_len / max_len are judged against the zero fixed members (an empty element list is not `no elements declared`).'
     run.rule_text = ("obligations: (type, state, shape) transitions for the escape rule; (type, state, shape) with "
                      "overlap for REDECLARE; (type, prop, validator row) for VALCHK; non-trivial = transitions with at "
                      "least one partial operation or value predicate")
@@ -111,6 +112,7 @@ def check(run: Run, prog: Program, model: Model, tier: str) -> None:
     run.floor("VALCHK", 12)
     run.floor("VALCHK-KIND", 4)
     _operators(run, prog, model)
+    _valchk_list_shapes(run, prog, model, tier)
 
 
 from ..vtable import LOSSY, lossy_image as _lossy_image  # noqa: E402
@@ -279,6 +281,36 @@ def _operators(run: Run, prog: Program, model: Model) -> None:
             run.holds("OPERATORS", c, f.loc, f"{n} path(s): a schema or DeclarationError", nontrivial=True)
         else:
             run.undecided("OPERATORS", c, f.loc, "no path")
+
+
+def _valchk_list_shapes(run: Run, prog: Program, model: Model, tier: str) -> None:
+    """VALCHK-ELEMENTS: a fully fixed element list (no `...`) of n members conforms only to lengths that admit n.  For
+    n = 0, 1, 2 the length refinements are evaluated on a schema holding such a list: an accepting path must have compared
+    the length argument with the number of members (a fact over the argument), it cannot accept unconditionally - in
+    particular not for the EMPTY list, which is a declared payload and not "nothing declared"."""
+    from ..automaton import run_shape, shapes_for
+    from ..values import ListV
+    from ..visits import member
+    st = model.schemas.get("ListSchema")
+    if st is None:
+        return
+    shapes = [sh for sh in shapes_for(st, tier) if sh.method == "len" and sh.well_typed]
+    for n in (0, 1, 2):
+        def mk(n: int = n) -> V:
+            return ListV([member(f"S{i+1}") for i in range(n)])
+        for sh in shapes:
+            outs = run_shape(prog, model, st, frozenset({"elements"}), sh, {"elements": mk})
+            acc = [o for o in outs if o.kind == "ACCEPT"]
+            site = st.cls.methods["len"].loc
+            c = f"ListSchema([{', '.join('S' for _ in range(n))}]).{sh.label}: the length is checked against the {n} fixed member(s)"
+            free = [o for o in acc if not any("len." in k for k, _ in o.preds)]
+            if free:
+                run.violated("VALCHK-ELEMENTS", c, site, "an accepting path never compares the length argument with the number of fixed members",
+                             witness=f"schema.list([{', '.join('schema.int' for _ in range(n))}]).{sh.label} is accepted for any length: "
+                                     "the schema's own element list does not validate against it")
+            elif acc or outs:
+                run.holds("VALCHK-ELEMENTS", c, site, f"{len(acc)} accepting path(s), each conditioned on the argument", nontrivial=True)
+    run.floor("VALCHK-ELEMENTS", 8)
 
 def _valchk(run: Run, prog: Program, model: Model, st: SchemaType, ta: TypeAutomaton, tier: str) -> None:
     payload = PAYLOAD.get(st.name, "value")
@@ -539,4 +571,13 @@ MUTANTS += [
     {"name": "float bounds compared with the value rounded to the declared precision", "rule": "VALCHK",
      "edits": [("d42/declaration/types/_float_schema.py", "        if (self.props.value is not Nil) and (value > self.props.value):\n            raise make_incorrect_min_error(self, self.props.value, value)",
                 "        fixed = self.props.value\n        if (fixed is not Nil) and (self.props.precision is not Nil):\n            fixed = round(fixed, self.props.precision)\n        if (fixed is not Nil) and (value > fixed):\n            raise make_incorrect_min_error(self, self.props.value, value)")]},
+]
+
+# round 7: the seeded changes that were missed on first contact, replayed against the current tree
+MUTANTS += [
+    {"name": 'seeded C10-N', "rule": 'VALCHK-ELEMENTS',
+     "edits": [('d42/declaration/types/_list_schema.py', 'import sys\nfrom typing import Any, List, Union\n\nfrom niltype import Nil, Nilable\n\n', 'import sys\nfrom typing import Any, List, Tuple, Union\n\nfrom niltype import Nil, Nilable\n\n'),
+               ('d42/declaration/types/_list_schema.py', '\n        return self.__class__(self.props.update(elements=list(elements_or_type)))\n\n    def __declare_len(self, props: ListProps, length: Any) -> ListProps:\n        if not isinstance(length, int):\n            raise make_invalid_type_error(self, length, (int,))\n\n        if props.elements is not Nil:\n            concrete_elements = [x for x in props.elements if not is_ellipsis(x)]\n            if len(props.elements) == len(concrete_elements):\n                if length != len(concrete_elements):\n                    raise make_incorrect_len_error(self, concrete_elements, length)\n            else:\n', '\n        return self.__class__(self.props.update(elements=list(elements_or_type)))\n\n    def __concrete_elements(self,\n                            props: ListProps) -> Nilable[Tuple[List[GenericSchema], bool]]:\n        elements = props.elements\n        if (elements is Nil) or (len(elements) == 0):\n            return Nil\n        # `...` can only be the first and/or the last element (see __call__)\n        start = 1 if is_ellipsis(elements[0]) else 0\n        stop = -1 if is_ellipsis(elements[-1]) else len(elements)\n        concrete_elements = elements[start:stop]\n        return concrete_elements, len(concrete_elements) < len(elements)\n\n    def __declare_len(self, props: ListProps, length: Any) -> ListProps:\n        if not isinstance(length, int):\n            raise make_invalid_type_error(self, length, (int,))\n\n        declared = self.__concrete_elements(props)\n        if declared is not Nil:\n            concrete_elements, has_ellipsis = declared\n            if not has_ellipsis:\n                if length != len(concrete_elements):\n                    raise make_incorrect_len_error(self, concrete_elements, length)\n            else:\n'),
+               ('d42/declaration/types/_list_schema.py', '        if not isinstance(min_length, int):\n            raise make_invalid_type_error(self, min_length, (int,))\n\n        if props.elements is not Nil:\n            concrete_elements = [x for x in props.elements if not is_ellipsis(x)]\n            if min_length > len(concrete_elements):\n                raise make_incorrect_min_len_error(self, concrete_elements, min_length)\n\n', '        if not isinstance(min_length, int):\n            raise make_invalid_type_error(self, min_length, (int,))\n\n        declared = self.__concrete_elements(props)\n        if declared is not Nil:\n            concrete_elements, _ = declared\n            if min_length > len(concrete_elements):\n                raise make_incorrect_min_len_error(self, concrete_elements, min_length)\n\n'),
+               ('d42/declaration/types/_list_schema.py', '        if not isinstance(max_length, int):\n            raise make_invalid_type_error(self, max_length, (int,))\n\n        if props.elements is not Nil:\n            concrete_elements = [x for x in props.elements if not is_ellipsis(x)]\n            if max_length < len(concrete_elements):\n                raise make_incorrect_max_len_error(self, concrete_elements, max_length)\n\n', '        if not isinstance(max_length, int):\n            raise make_invalid_type_error(self, max_length, (int,))\n\n        declared = self.__concrete_elements(props)\n        if declared is not Nil:\n            concrete_elements, _ = declared\n            if max_length < len(concrete_elements):\n                raise make_incorrect_max_len_error(self, concrete_elements, max_length)\n\n')]},
 ]
